@@ -23,14 +23,17 @@ RULE = ('direct: event times on a half-dump grid from three periods before the f
         'True/False/left to its default, value representation str/int/wrapped ndarray/wrapped tuple, scalar inputs; '
         'cache: RAW samples in random order with duplicate timestamps, statuses (readable / unreadable / none), a time '
         'offset, possibly no usable sample at all (dummy), keep mask, categorical property absent/True/False, float '
-        'dtype; non-trivial when an event lies inside the dumps and either two events share a dump or a greedy '
+        'dtype; values: array-valued sensors whose values collide in shape ((1,) vs (n,), empty, 0-d, 2-d, scalars, tuples, '
+        'lists, NaN) and pairs of such values for ==, != and hash; non-trivial when an event lies inside the dumps and either two events share a dump or a greedy '
         'value occurs; distinct by the full canonical case')
 ASSUMPTIONS = ['direct calls: sensor timestamps are non-decreasing and dump mid-times strictly increase (the cache path '
                'sorts: unsorted raw samples are generated there); numpy searchsorted is modelled for sorted arrays',
                'times are dyadic rationals so that float64 comparisons in katdal are exact',
                'array-valued (wrapped) sensors need at least one sample on the direct path (wrappedness is inferred from '
                'the first value) and their greedy values are handed over wrapped, except in the single F27 probe',
-               'equality of sensor values is equality of their ids (str, int, ndarray via ComparableArrayWrapper)',
+               'equality of sensor values is equality of their ids (str, int, same-shape ndarray / tuple via ComparableArrayWrapper) '
+               'in the direct / cache / table cases; the value cases (c10_values) let the model of ComparableArrayWrapper.__eq__ assign '
+               'the ids and decode by kind, shape and elements; np.array_equal is modelled (same shape, elementwise ==, NaN unequal)',
                'the clean-up of raw samples (sort, last of equal timestamps, readable status) is property C12; here '
                'its model (Model/SensorToCatPath.v clean_r) is tied by the correspondence on the usable samples']
 
